@@ -5,7 +5,7 @@ From Coq Require Import Reals List Arith Lia Lra QArith.
 From TLV Require Import Base.Shape Base.PyList Base.Tensor Base.Ops Base.RSum Model.Descent
   Model.DescentReport Proofs.DescentProofs Proofs.DescentProofsHals Proofs.DescentProofsLink Proofs.DescentProofsOrth Proofs.DescentProofsNorm Proofs.DescentProofsNN Proofs.DescentProofsReg Proofs.DescentProofsTucker Proofs.DescentProofsCmtf Proofs.DescentProofsTkReg Proofs.DescentProofsTR Proofs.DescentProofsUnfold
   Proofs.DescentProofsSpec Proofs.DescentProofsSweeps Proofs.DescentProofsSweeps2 Proofs.DescentProofsReport Proofs.DescentProofsP2Tie Proofs.DescentProofsStatic Proofs.DescentProofsNNNorm
-  Model.DescentModes Proofs.DescentProofsModes Proofs.DescentProofsR6 Model.DescentLoop Proofs.DescentProofsLoop Proofs.DescentProofsCmtf2.
+  Model.DescentModes Proofs.DescentProofsModes Proofs.DescentProofsR6 Model.DescentLoop Proofs.DescentProofsLoop Proofs.DescentProofsCmtf2 Proofs.DescentProofsR7.
 Import ListNotations.
 Open Scope R_scope.
 
@@ -727,6 +727,26 @@ Print Assumptions C07_hooi_loop_reported_nonincreasing.
 Theorem C07_stop_test_spec : forall (k : stop_kind) (tol a b f : R), stop_test Rops k tol a b f = true <-> stop_prop k tol a b f.
 Proof. exact stop_test_spec. Qed.
 Print Assumptions C07_stop_test_spec.
+
+(* PARAFAC2 with nn_modes: the inner step is non_negative_parafac_hals (no sparsity) on the tensor of projected slices; its sweeps (exact solves on the unconstrained
+   modes, n HALS passes on the non-negative ones) satisfy the inner-step hypothesis of C07_parafac2_iter_descent under their own contract at the visited states *)
+Theorem C07_parafac2_inner_step_from_nn : forall (T : tensor R) (I Rr K : nat) (w : list R) (rank : nat) (l1s : list R) (eps : R)
+  (solve : list (list R) -> list (list R) -> list (list R)) (blocks : list (nat * blockkind)) (facs : list (list (list R))),
+  shape T = [I; Rr; K] -> (forall j : nat, nth j l1s 0 = 0) -> nn_sweep_ok T w rank l1s eps solve blocks facs ->
+  rsum I (fun i => frob2 Rr K (msub (slice3 Rr K T i) (cp_slice w (nn_sweep Rops solve T w rank l1s eps blocks facs) rank i)))
+  <= rsum I (fun i => frob2 Rr K (msub (slice3 Rr K T i) (cp_slice w facs rank i))).
+Proof. exact p2_inner_step_from_nn. Qed.
+Print Assumptions C07_parafac2_inner_step_from_nn.
+(* hals_nnls END TO END: passes under ANY stopping rule on any recorded quantity (the code: squared norm of the update of a pass below tol times its first value,
+   hals_stop in Model/DescentLoop.v): the returned iterate is feasible and its objective is not above the initial one; no contract at visited states is needed *)
+Theorem C07_hals_loop_descent : forall (G B : list (list R)) (l1 l2 eps : R) (rank ncols : nat),
+  (forall i j : nat, mget Rops G i j = mget Rops G j i) -> (forall k : nat, 0 <= mget Rops G k k) -> 0 <= l2 ->
+  forall (V0 : Type) (report : list (list R) -> V0) (stop : nat -> list V0 -> bool) (n : nat) (V : list (list R)),
+  length V = rank -> feasible eps rank ncols V ->
+  let Vf := fst (run_loop (list (list R)) V0 (hals_pass Rops G B l1 l2 eps rank ncols) report stop n V) in
+  length Vf = rank /\ feasible eps rank ncols Vf /\ hals_obj Rops G B Vf l1 l2 rank ncols <= hals_obj Rops G B V l1 l2 rank ncols.
+Proof. exact hals_loop_descent. Qed.
+Print Assumptions C07_hals_loop_descent.
 
 (* PENALTIES.  What the blocks solve exactly, and what therefore descends, is the PENALISED objective: C07_cp_sweep_descent / C07_cp_history_monotone
    (||X-[[w;A..]]||^2 + l2_reg sum_j ||A_j diag w||^2) and C07_nn_sweep_descent / C07_nn_history_monotone (||X-[[w;A..]]||^2/2 + sum_j sparsity_j sum(A_j)).
